@@ -2,6 +2,7 @@ import IrefVerif.Model.Reference
 import IrefVerif.Findings
 import IrefVerif.Lemmas.RelativeTotal
 import IrefVerif.Lemmas.RelativeRoundTrip
+import IrefVerif.Lemmas.WholeRoundTrip
 import IrefVerif.Lemmas.IriBytes
 import IrefVerif.Props.Valid
 
@@ -32,7 +33,9 @@ for a target that is the root with the base below it (`roundtrip_root_partial`).
 `a.relative_to(b)` is `../` for every remaining segment of the base's directory followed by the
 remainder of `a` (`relative_to_on_class`), and resolving it against `b` gives a URI/IRI equal to `a`
 (`Lemmas/RelativeRoundTrip.lean`, through `C06.resolve_relative_authority`); the class is disjoint
-from `f12` (`class_outside_f12`).  PARTIAL: outside that class (bases without authority, the root
+from `f12` (`class_outside_f12`).  (iv) **every whole-target fallback** of a target with an
+authority outside `f12` round-trips against every base (`roundtrip_whole_fallback_partial`; taken
+e.g. when only the target has an authority, `relative_to_authority_one_sided`).  PARTIAL: outside that class (bases without authority, the root
 seen from its own level, the shortcut, the fallbacks) the round trip is judged on the implementation by the oracle on every
 generated pair: a failing pair outside `f12`, or any difference between model and implementation,
 is a violation.
@@ -119,6 +122,38 @@ example : Ref.relative_to [0x73,0x3A,0x2F,0x2F,0x68,0x2F] [0x73,0x3A,0x2F,0x2F,0
     = some [0x2E,0x2E] ∧
     nsegs (split [0x73,0x3A,0x2F,0x2F,0x68,0x2F]).path = [] ∧
     nsegs (Path.parent_or_empty (split [0x73,0x3A,0x2F,0x2F,0x68,0x2F,0x63,0x2F,0x69]).path) ≠ [] := by decide
+
+/-- **every whole-target fallback round-trips**: whenever `relative_to` gives back the whole target
+(normalised in place) — different schemes, different authorities, an authority on one side only,
+an absolute against a relative path, an empty segment that resolution would drop — resolving it
+against the base, whatever the base, gives a URI/IRI equal to the target; for every target with
+an authority outside `f12` -/
+theorem roundtrip_whole_fallback_partial (G : Grammar) (ok : Lemmas.Grammar.Ok G) (okp : Lemmas.Grammar.OkPath G)
+    (a b aa : Text) (ha : RE.Matches G.full a) (hb : RE.Matches G.full b)
+    (haa : (split a).authority = some aa) (hl : nsegs (split a).path ≠ [[]])
+    (hw : Ref.relative_to a b = Ref.whole a) :
+    ∃ r t, Ref.relative_to a b = some r ∧ Ref.resolve r b = some t ∧ key t = key a := by
+  obtain ⟨w, t, e1, e2, hk⟩ := Lemmas.whole_roundtrip_authority G ok okp a b aa ha hb haa hl
+  exact ⟨w, t, by rw [hw, e1], e2, hk⟩
+
+/-- an authority on the target's side only: the fallback is taken -/
+theorem relative_to_authority_one_sided (G : Grammar) (ok : Lemmas.Grammar.Ok G) (a b aa : Text)
+    (ha : RE.Matches G.reference a) (hb : RE.Matches G.reference b)
+    (haa : (split a).authority = some aa) (hab : (split b).authority = none) :
+    Ref.relative_to a b = Ref.whole a := by
+  obtain ⟨_, wA⟩ := Lemmas.split_valid G ok a ha
+  obtain ⟨_, wB⟩ := Lemmas.split_valid G ok b hb
+  have hau := Lemmas.ref_authority_recompose (split a) wA
+  have hbu := Lemmas.ref_authority_recompose (split b) wB
+  rw [Lemmas.recompose_split] at hau hbu
+  unfold Ref.relative_to
+  simp only [hau, hbu, haa, hab]
+  split <;> simp
+
+/-- … so `s://h/p` relative to `s:/q` (the witness of the first class of the old F12, mirrored)
+round-trips: the whole target comes back -/
+example : Ref.relative_to [0x73,0x3A,0x2F,0x2F,0x68,0x2F,0x70] [0x73,0x3A,0x2F,0x71]
+    = some [0x73,0x3A,0x2F,0x2F,0x68,0x2F,0x70] := by decide
 
 /-- … and the class is disjoint from what is left of F12 -/
 theorem class_outside_f12 (a b : Text) (hpa : isAbs (split a).path = true)
